@@ -915,6 +915,13 @@ pixman_image_fill_boxes (pixman_op_t           op,
             if (!pixman_region32_init_rects (&fill_region, boxes, n_boxes))
                 return FALSE;
 
+            /* The boxes may extend beyond the image */
+            if (!pixman_region32_intersect_rect (&fill_region, &fill_region,
+                                                 0, 0,
+                                                 dest->bits.width,
+                                                 dest->bits.height))
+                return FALSE;
+
             if (dest->common.have_clip_region)
             {
                 if (!pixman_region32_intersect (&fill_region,
